@@ -40,6 +40,8 @@ class ShapeEngine:
         self.max_depth = max_depth
         self.trace = []  # (qual, expr text, shape) for evidence
         self.module_out = {}  # name of module-valued parameter/attr -> output feature dim (e.g. "critic": 1)
+        self.module_tuple_out = {}  # name -> list of output dims for modules returning tuples (e.g. GaussianMLP: [O, O])
+        self.class_self = {}  # class qual -> dict of self attribute values (function values, seeded shapes)
         self._sym = 0
 
     # ------------------------------------------------------------------ utilities
@@ -101,7 +103,13 @@ class ShapeEngine:
     def analyse(self, fn: ast.FunctionDef, mi, qual: str, arg_shapes: dict, fnenv: dict | None = None, depth: int = 0, self_attrs: dict | None = None):
         """Abstractly execute ``fn`` with parameter shapes ``arg_shapes``; returns the shape (or ('tuple', [...])) returned."""
         env = dict(arg_shapes)
-        ctx = {"mi": mi, "qual": qual, "fnenv": dict(fnenv or {}), "depth": depth, "ret": [], "self": dict(self_attrs or {})}
+        ptypes = {}
+        for a in fn.args.posonlyargs + fn.args.args + fn.args.kwonlyargs:
+            if a.annotation is not None and isinstance(a.annotation, (ast.Name, ast.Attribute)):
+                r = self.repo.resolve_expr(mi, a.annotation)
+                if r and r.startswith(self.repo.PKG + "."):
+                    ptypes[a.arg] = r
+        ctx = {"mi": mi, "qual": qual, "fnenv": dict(fnenv or {}), "depth": depth, "ret": [], "self": self_attrs if self_attrs is not None else {}, "ptypes": ptypes}
         self.block(fn.body, env, ctx)
         rets = ctx["ret"]
         if not rets:
@@ -131,6 +139,12 @@ class ShapeEngine:
         elif isinstance(s, ast.Return):
             ctx["ret"].append(self.ev(s.value, env, ctx) if s.value is not None else None)
         elif isinstance(s, ast.If):
+            t = s.test
+            if isinstance(t, ast.Compare) and len(t.ops) == 1 and isinstance(t.ops[0], ast.Eq) and isinstance(t.left, ast.Attribute) and t.left.attr == "ndim" and isinstance(t.comparators[0], ast.Constant):
+                base = self.ev(t.left.value, env, ctx)
+                if self.is_shape(base) and base is not None:
+                    self.block(s.body if len(base) == t.comparators[0].value else s.orelse, env, ctx)
+                    return
             e1, e2 = dict(env), dict(env)
             self.ev(s.test, env, ctx)
             self.block(s.body, e1, ctx)
@@ -139,8 +153,13 @@ class ShapeEngine:
                 env[k] = e1.get(k) if e1.get(k) == e2.get(k) else None
         elif isinstance(s, (ast.For, ast.While)):
             if isinstance(s, ast.For):
-                it = self.ev(s.iter, env, ctx)
-                self.assign(s.target, None if not self.is_shape(it) or not it else tuple(it[1:]), env, ctx)
+                if isinstance(s.iter, ast.Call) and isinstance(s.iter.func, ast.Name) and s.iter.func.id == "zip" and isinstance(s.target, ast.Tuple):
+                    for tgt, a in zip(s.target.elts, s.iter.args):
+                        v = self.ev(a, env, ctx)
+                        self.assign(tgt, tuple(v[1:]) if self.is_shape(v) and v else None, env, ctx)
+                else:
+                    it = self.ev(s.iter, env, ctx)
+                    self.assign(s.target, None if not self.is_shape(it) or not it else tuple(it[1:]), env, ctx)
             before = dict(env)
             self.block(s.body, env, ctx)
             for k in set(env):
@@ -428,6 +447,29 @@ class ShapeEngine:
             # self.<callable attr>
             if isinstance(f.value, ast.Name) and f.value.id == "self" and isinstance(ctx["self"].get(f.attr), tuple) and ctx["self"][f.attr] and ctx["self"][f.attr][0] == "fn":
                 return self.apply(ctx["self"][f.attr][1], args, {k: self.ev(v, env, ctx) for k, v in kw.items()}, e, ctx)
+            # tfp distribution constructors: report (loc, scale) shapes
+            if f.attr in ("MultivariateNormalDiag", "Normal") and (kw.get("loc") is not None):
+                sc_e = kw.get("scale_diag", kw.get("scale"))
+                return ("tuple", [self.ev(kw["loc"], env, ctx), self.ev(sc_e, env, ctx) if sc_e is not None else None])
+            # method of a parameter with a repo class annotation (dynamics_model.base_distribution(...))
+            if isinstance(f.value, ast.Name) and f.value.id in ctx.get("ptypes", {}) and ctx["depth"] < self.max_depth:
+                cq = ctx["ptypes"][f.value.id]
+                mm = self.repo.method(cq, f.attr)
+                if mm is not None:
+                    mfn = mm[1]
+                    mmi = self.repo.cls(mm[0])._module
+                    mp = [p for p in positional_params(mfn) if p != "self"]
+                    ash = {}
+                    for pnm, a in zip(mp, args):
+                        ash[pnm] = a
+                    for k, v in kw.items():
+                        ash[k] = self.ev(v, env, ctx)
+                    declared = doc_shapes(mfn)
+                    for pnm, shp in ash.items():
+                        d = declared.get(pnm)
+                        if d is not None and self.is_shape(shp) and shp is not None and len(d) != len(shp):
+                            self.alarm(mi, e, "rank-mismatch-call", f"`{pnm}` of {cq.rsplit('.', 1)[1]}.{f.attr} is documented with rank {len(d)} {tuple(d)} but receives shape {shp}", qual)
+                    return self.analyse(mfn, mmi, f"{cq}.{f.attr}", ash, {}, ctx["depth"] + 1, dict(self.class_self.get(cq, {})))
             recv = self.ev(f.value, env, ctx)
             m = f.attr
             if self.is_shape(recv) and recv is not None:
@@ -450,6 +492,8 @@ class ShapeEngine:
             return None
         # call of a module-valued parameter: q(x), critic(x)
         if isinstance(f, ast.Name):
+            if f.id in self.module_tuple_out and args and self.is_shape(args[0]) and args[0] is not None:
+                return ("tuple", [tuple(args[0][:-1]) + (d,) for d in self.module_tuple_out[f.id]])
             if f.id in self.module_out and args and self.is_shape(args[0]) and args[0] is not None:
                 return tuple(args[0][:-1]) + (self.module_out[f.id],)
         return None
@@ -614,6 +658,8 @@ class ShapeEngine:
             if isinstance(fv, tuple) and fv and fv[0] == "fn":
                 return ("fn", Fn("vmap", fv[1], self.lit(kw.get("in_axes", e.args[1] if len(e.args) > 1 else None), 0), self.lit(kw.get("out_axes"), 0)))
             return None
+        if short == "merge" and getattr(self, "merge_out", None):
+            return ("fn", Fn("module_tuple", list(self.merge_out)))
         if short in ("jit", "partial", "cached_partial", "checkpoint", "remat"):
             fv = args[0] if args else None
             if isinstance(fv, tuple) and fv and fv[0] == "fn" and len(args) == 1 and not kw:
@@ -718,6 +764,10 @@ class ShapeEngine:
             a0 = args[0] if args else None
             if self.is_shape(a0) and a0 is not None:
                 return tuple(a0[:-1]) + (fv.args[0],)
+        if fv.kind == "module_tuple":
+            a0 = args[-1] if args else None
+            if self.is_shape(a0) and a0 is not None:
+                return ("tuple", [tuple(a0[:-1]) + (d,) for d in fv.args[0]])
         return None
 
     def _add_axis(self, r, dim, at):
